@@ -296,6 +296,13 @@ func runCheck(repo, verif, prop, tier string, verbose bool) int {
 	paths := 0
 	perFn := map[string]int{}
 	for _, fc := range fcs {
+		if fc.Detached {
+			undecided = append(undecided, "the contract of "+fc.Key+" no longer matches any function of this tree (its captured variables / parameters changed): what it decides is undecided")
+			continue
+		}
+		if fc.Rebound != "" {
+			notes["contract "+fc.Key+" re-bound to "+fc.Rebound+" (matched by captured variables and parameters)"] = true
+		}
 		r := e.verifyFunction(fc)
 		fnKeys = append(fnKeys, fc.Key)
 		if fc.DepVerified {
@@ -321,6 +328,10 @@ func runCheck(repo, verif, prop, tier string, verbose bool) int {
 			// of the whole function unknown; an unevaluable rule of its own only loses that rule)
 			for _, pat := range []string{"unknown identifier", "selector .", "cannot index", "has no field", "numeric selector", "not a tuple"} {
 				if strings.HasPrefix(u, "contract ") && strings.Contains(u, pat) && !strings.Contains(u, "(in \"loop ") {
+					evalErrFns[fc.Key] = true
+				}
+				// an unevaluable loop invariant is a lost assumption: nothing after the loop is proved
+				if strings.HasPrefix(u, "loop invariant of "+fc.Key+":") && strings.Contains(u, pat) {
 					evalErrFns[fc.Key] = true
 				}
 			}
@@ -675,6 +686,19 @@ func (e *Engine) notAViolation(f *Obligation, name string, base map[string]Shape
 				return "function " + k + " is not part of the baseline the contracts were written against (it needs a contract of its own)"
 			}
 			continue
+		}
+		if fc := e.contracts.funcs[k]; fc != nil {
+			cur := e.shapeOf(fn)
+			for n := range fc.LoopInv {
+				if n > cur.Loops {
+					return fmt.Sprintf("the contract of %s has an invariant for loop %d, but the function now has %d loops: the proof was written for different code", k, n, cur.Loops)
+				}
+			}
+			for n := range fc.Unroll {
+				if n > cur.Loops {
+					return fmt.Sprintf("the contract of %s unrolls loop %d, but the function now has %d loops: the proof was written for different code", k, n, cur.Loops)
+				}
+			}
 		}
 		if cur := e.shapeOf(fn); cur.Loops != b.Loops && (strings.Contains(name, "/loop") || strings.Contains(f.Note, "`loop ")) {
 			return fmt.Sprintf("%s now has %d loops where the baseline has %d: rules and invariants attached to loops by ordinal no longer denote the loops they were written for", k, cur.Loops, b.Loops)
